@@ -630,6 +630,20 @@ void collect_pool(Node &n, int depth, int maxd, std::vector<int> &path, std::vec
   }
 }
 
+// the second pool of the pairs mode: every state reached by at most two operations of a small alphabet with constants of both
+// signs and every octagonal constraint shape (sums and differences, lower and upper bounds), so that the order and the lattice
+// operations meet operands that have bounds but no relation, sum constraints with non-positive constants, etc.
+std::vector<vh::HOp> octagonal_alphabet(unsigned caps) {
+  static const char *names[] = {"x:=-1", "x:=1", "y:=-1", "y:=2", "assume(x+y<=1)", "assume(x+y>=-1)", "assume(x+y>=1)", "assume(x+y==0)",
+                                "assume(x<=y)", "assume(x<y)", "assume(x>=0)", "assume(x<=0)", "assume(y<=0)", "assume(y>=-1)", "assume(y<=1)", "forget(y)"};
+  std::vector<vh::HOp> all = vh::build_alphabet(caps, true), r;
+  for (auto n : names)
+    for (auto &h : all)
+      if (h.op.name == n) r.push_back(h);
+  return r;
+}
+std::string POOLTAG = "p";
+
 void pool_pairs(std::vector<PoolVal> &pool) {
   for (size_t i = 0; i < pool.size(); i++) {
     if (!vp::mine(i)) continue;
@@ -638,7 +652,7 @@ void pool_pairs(std::vector<PoolVal> &pool) {
       PoolVal &a = pool[i], &b = pool[j];
       std::vector<int> path = a.path;
       std::string ctx = "A: " + hist_str(a.path) + " B: " + hist_str(b.path);
-      std::string spec = "p|" + DOMNAME + "|" + CFGNAME + "|" + std::to_string(i) + "|" + std::to_string(j);
+      std::string spec = POOLTAG + "|" + DOMNAME + "|" + CFGNAME + "|" + std::to_string(i) + "|" + std::to_string(j);
       vp::set_case(spec);
       bool wu = a.w_used || b.w_used;
       auto rep = [&](const std::string &clause, const std::string &detail) {
@@ -796,9 +810,10 @@ int main(int argc, char **argv) {
           if (good) { MAXD = (int)pp.size() + 1; dfs(m, (int)pp.size(), q, 0, (int)ALPHA.size()); }
         }
       }
-    } else if (f[0] == "p") {
+    } else if (f[0] == "p" || f[0] == "q") {
       // rebuild the pool deterministically and re-check the pair
-      ALPHA = build_alphabet(DOM->caps, false);
+      POOLTAG = f[0];
+      ALPHA = f[0] == "p" ? build_alphabet(DOM->caps, false) : octagonal_alphabet(DOM->caps);
       Node n = initial_node();
       std::vector<PoolVal> pool;
       std::set<std::string> seen;
@@ -890,6 +905,16 @@ int main(int argc, char **argv) {
         collect_pool(n, 0, 2, path, pool, seen, th ? 600 : 250);
         vp::statmax("pool." + DOMNAME, (long long)pool.size());
         pool_pairs(pool);
+        // second pool: the octagonal-shapes alphabet (all of it: 16 + 16^2 histories before deduplication)
+        ALPHA = octagonal_alphabet(e.caps);
+        POOLTAG = "q";
+        Node n2 = initial_node();
+        std::vector<PoolVal> pool2;
+        std::set<std::string> seen2;
+        collect_pool(n2, 0, 2, path, pool2, seen2, 400);
+        vp::statmax("pool2." + DOMNAME, (long long)pool2.size());
+        pool_pairs(pool2);
+        POOLTAG = "p";
       }
     }
   }
